@@ -182,6 +182,9 @@ def _cached(c, tag, fn, extra=None):
     if res is None:
         res = fn(c.index)
         try:
+            # scratch trees (variants, seeded / benign patches) come and go: only the results for the default tree are kept on disk
+            if os.path.abspath(os.environ.get('HL7LINT_REPO', '/repo')) != '/repo':
+                raise OSError('scratch tree: memory only')
             os.makedirs(cache_dir, exist_ok=True)
             tmp = path + '.%d.tmp' % os.getpid()
             json.dump(res, open(tmp, 'w'))
